@@ -150,6 +150,18 @@ def gen_fit_once(rng, idx):
     elif t == 5 and not poly:
         call['dtypes'] = {'x': 'float32', 'y': 'float32'}
         call['single_precision_x'] = True
+    # data and weights in other units: y * c, invvar / c^2 for c = 2^-56 .. 2^56 (~1e-17 .. 1e17, exact), and uniformly
+    # tiny / huge weights alone: a well-supported fit stays a well-supported fit (status 0, same optimum up to the scale)
+    u = (idx // 3) % 8
+    if 'dtypes' not in call and u in (1, 3, 5, 6):
+        cs = [2.0 ** -56, 2.0 ** 56, 1.0, 1.0][[1, 3, 5, 6].index(u)]
+        ww = [1.0, 1.0, 2.0 ** -60, 2.0 ** 60][[1, 3, 5, 6].index(u)]
+        call['scale'] = [cs, ww]
+        for key in ('ys',):
+            call[key] = [v * cs for v in call[key]]
+        call['ws'] = [w / (cs * cs) * ww for w in call['ws']]
+        call['extra'] = {nm: [v * cs for v in vals] for nm, vals in call['extra'].items()}
+        call['extra']['zw'] = [y + (1000.0 * cs if w == 0 else 0.0) for y, w in zip(call['ys'], call['ws'])]
     return call
 
 
@@ -307,6 +319,8 @@ def correspond(ctx, proof_ok=True):
             if 'err' in r:
                 viol('C09:fit:well-supported:impl=%s' % r['err'], 'bspline.fit raised %s on a well-supported problem' % r['err'], c, r)
                 continue
+            if r.get('args_mutated'):
+                viol('C09:fit:argument-modified', 'bspline.fit modified a caller-owned array: %s' % r['args_mutated'], c, r)
             if not r.get('finite', True):
                 viol('C09:fit:well-supported:non-finite', 'non-finite coefficients on a well-supported fit', c, r)
                 continue
@@ -387,6 +401,12 @@ def correspond(ctx, proof_ok=True):
                 if r['ret'] != -1 or 'x' not in r or not r.get('L_finite') or not r.get('x_finite'):
                     viol('C09:cholesky_band:spd:not-factorised', 'SPD band matrix not factorised/solved: %s' % {k: r.get(k) for k in ('ret', 'solve')}, c, r)
                     continue
+                if r.get('args_mutated') or r.get('result_aliases_arg') or not r.get('second_solve_same', True):
+                    viol('C09:cholesky:argument-modified',
+                         'cholesky_band/cholesky_solve modified a caller-owned array (%s) or returned storage shared with an argument; a '
+                         'second solve with the same right-hand side %s' % (r.get('args_mutated'), 'agrees' if r.get('second_solve_same') else 'DIFFERS'),
+                         c, r, extra={'history': ['cholesky_band(A)', 'x = cholesky_solve(L, b)', 'x2 = cholesky_solve(L, b)  # same b object'],
+                                      'meaning': 'A x = b must hold for the right-hand side the caller holds'})
                 terms.append('(CChol %s %s %d%%nat %s %s)' % (qll(c['ab']), qll(r['L']), c['n'], ql(r['x']), ql(c['b'])))
                 owners.append(i)
             else:
